@@ -72,6 +72,10 @@ type NSQD struct {
 	exitChan             chan int
 	waitGroup            util.WaitGroupWrapper
 
+	// orders Notify joining waitGroup with Exit waiting on it
+	notifyMtx     sync.Mutex
+	notifyStopped bool
+
 	ci *clusterinfo.ClusterInfo
 }
 
@@ -487,6 +491,12 @@ func (n *NSQD) Exit() {
 
 	n.logf(LOG_INFO, "NSQ: stopping subsystems")
 	close(n.exitChan)
+	// a notification that starts from here on would only see exitChan
+	// closed and return; it must not be added to the wait group while
+	// (or after) it is being waited on
+	n.notifyMtx.Lock()
+	n.notifyStopped = true
+	n.notifyMtx.Unlock()
 	n.waitGroup.Wait()
 	n.dl.Unlock()
 	n.logf(LOG_INFO, "NSQ: bye")
@@ -598,6 +608,11 @@ func (n *NSQD) Notify(v interface{}, persist bool) {
 	// should not persist metadata while loading it.
 	// nsqd will call `PersistMetadata` it after loading
 	loading := atomic.LoadInt32(&n.isLoading) == 1
+	n.notifyMtx.Lock()
+	defer n.notifyMtx.Unlock()
+	if n.notifyStopped {
+		return
+	}
 	verif.Ev("NotifySpawn", "persist", persist && !loading)
 	n.waitGroup.Wrap(func() {
 		defer verif.Ev("NotifyDone")
